@@ -53,6 +53,22 @@ def run(ctx, chk):
     chk.oblige("B09.2 precedes(compressed write: Pages::truncate (index rewrite starts) before update_stored_len)",
                not bad, key="B09.2|compressed-write|truncate-before-len",
                msg="the page index must be updated before the shared length is published")
+    # one critical section: every index change that leads to a length publication uses the PAGES:W guard
+    # that is held at that publication
+    idx_ops = M(r"vecdb::variants::compressed::inner::pages::Pages::(truncate|checked_push|reset)")
+    for u in uss:
+        held_locals = [l for c, m, l in L.held_items(cw, u) if (c, m) == ("PAGES", "W")]
+        others = []
+        for b in O.sites(cw, idx_ops):
+            if O.can_reach(cw, b, [u]):
+                g = O.guard_local_of(cw, cw.blocks[b]["term"]["args"][0])
+                if g not in held_locals:
+                    others.append(cw.blocks[b]["term"].get("span"))
+        chk.oblige("B09.2 same_guard(compressed write: index truncate/push and the length publication at %s in one "
+                   "PAGES:W critical section)" % cw.blocks[u]["term"].get("span"), bool(held_locals) and not others,
+                   detail={"index_ops_outside": others}, key="B09.2|same_guard|compressed-write|critical-section",
+                   msg="the page index must not be visible in an intermediate state (pages removed but length still "
+                       "published): index rewrite and length publication form one critical section")
     for b in uss + cps:
         held = O.held_classes(cw, b)
         nm = names(cw.blocks[b]["term"])[0].split("::")[-1]
@@ -84,7 +100,10 @@ def run(ctx, chk):
     if sl is None:
         raise AnchorMissing("SharedLen not found")
     # B09.4 reader side
-    loads = M(re.escape(GET), reach=True, label="reaches SharedLen::get")
+    # a closure that only builds an error value (ok_or_else(|| Error::IndexTooHigh { len: self.len(), .. })) does
+    # not bound any read with the length it loads
+    loads = M(re.escape(GET), reach=True, label="reaches SharedLen::get",
+              closure_filter=lambda K: not K.locals[0]["ty"].endswith("::Error"))
     mkr = M(re.escape(MK_READER) + r"|rawdb::reader::Reader::new", reach=True, label="reaches Region::create_reader")
     ro_bodies = [b for bid, b in sorted(P.bodies.items()) if b.krate == "vecdb" and (
         "::read_only::" in bid or "ReadOnlyRawVec" in bid or "ReadOnlyCompressedVec" in bid or "ReadOnlyBaseVec" in bid
